@@ -143,6 +143,15 @@ def check_builtins(run_, F, config, rule="B"):
         site = "%s:%s" % (c.get("file"), c.get("line"))
         want, mp = oracle_lookup(st)
         got = alpha_term(drop_type_names(schema_term(c["hir"], F)), mp)
+        if isinstance(got, tuple) and got and got[0] == "Ref":
+            # `const SCHEMA = <Other as Schema>::SCHEMA`: this impl *is* the other one's tree (that impl is judged against its own row);
+            # expressed in this impl's parameters it is the other type's oracle row
+            other = norm_self(got[1])
+            inv = {v: k for k, v in mp.items()}
+            ow, omp = oracle_lookup(alpha_str(other, inv))
+            if ow is not None:
+                back = {v: k for k, v in omp.items()}                 # the row's positional names -> the parameters as the other type spells them
+                got = alpha_term(alpha_term(ow, back), mp)
         n += 1
         if want is None:
             run_.bad(rule, key, "impl Schema for %s has no row in the data-model oracle table (new impl: add its serde shape)" % st, site, found=repr(got))
